@@ -332,6 +332,59 @@ func suiteLifecycle(e *vh.Env) {
 			}})
 		}
 	}
+	// --- signal while the agent is still waiting for its backend to come up (health gate)
+	for _, sg := range []syscall.Signal{syscall.SIGTERM, syscall.SIGINT} {
+		for _, grace := range []int{0, 3} {
+			if !e.Thorough() && grace == 3 && sg == syscall.SIGINT {
+				continue
+			}
+			sg, grace := sg, grace
+			scens = append(scens, scen{fmt.Sprintf("signal %v during the health gate grace=%ds", sg, grace), func(idx int) {
+				r := newLcRig([]int{503}, 0) // never healthy
+				defer r.stop()
+				args := []string{"--health-check-interval-seconds=1", "--health-check-unhealthy-threshold=2"}
+				if grace > 0 {
+					args = append(args, fmt.Sprintf("--graceful-shutdown-timeout=%ds", grace))
+				}
+				r.startAgent(e, args...)
+				ok := false
+				for k := 0; k < 500; k++ {
+					r.mu.Lock()
+					n := len(r.healthLog)
+					r.mu.Unlock()
+					if n >= 1 {
+						ok = true
+						break
+					}
+					time.Sleep(10 * time.Millisecond)
+				}
+				if !ok {
+					e.Fail("C20:no-health-check", "the agent made no health check within 5 s", idx, nil, nil, nil)
+					return
+				}
+				time.Sleep(150 * time.Millisecond)
+				sigAt := time.Since(r.t0)
+				r.cmd.Process.Signal(sg)
+				what := fmt.Sprintf("%v during the health gate (backend never healthy), grace %ds", sg, grace)
+				limit := time.Duration(grace)*time.Second + 1500*time.Millisecond // with the option, exiting when the period ends is acceptable
+				if !r.waitExit(limit) {
+					e.Fail("C20:no-exit-after-signal", what+fmt.Sprintf(": the agent was still running %v after the signal", limit), idx, nil, nil, nil)
+					return
+				}
+				r.mu.Lock()
+				defer r.mu.Unlock()
+				after := r.exitAt - sigAt
+				if grace == 0 && after > time.Second {
+					e.Fail("C20:exit-not-prompt", what+fmt.Sprintf(": exited %v after the signal", after), idx, nil, nil, nil)
+				}
+				if len(r.listTimes) > 0 {
+					e.Fail("C20:polled-before-healthy", what+": a list call was made although no health check ever passed", idx, nil, nil, nil)
+				}
+				e.Eval("signal-gate/"+what, true)
+				e.Sample(map[string]interface{}{"scenario": what, "exit_after_signal_ms": after.Milliseconds(), "health_checks": len(r.healthLog)})
+			}})
+		}
+	}
 	// --- shutdown while the proxy is failing: the polling loop is in its error/back-off branch when the signal arrives
 	for _, sg := range []syscall.Signal{syscall.SIGTERM, syscall.SIGINT} {
 		for _, failsBefore := range []int{1, 2, 4} {
